@@ -60,6 +60,15 @@ func c08Window(args []*big.Int, offIdx, sizeIdx int) {
 
 func c08Words(n uint64) uint64 { return (n + 31) / 32 }
 
+// c08Len reads a size operand; anything of 2^63 or more is represented by 2^63 (it is
+// refused in every case, the exact value does not matter - but it must not wrap to a small one)
+func c08Len(v *big.Int) uint64 {
+	if v.Cmp(new(big.Int).Lsh(big.NewInt(1), 63)) >= 0 {
+		return 1 << 63
+	}
+	return v.Uint64()
+}
+
 // deterministic keccak stub (engine only): an uninterpreted function of the input bytes
 func c08Keccak256(data ...[]byte) []byte { return vs.UF("keccak256", 32, data...) }
 
@@ -83,7 +92,7 @@ func c08RefsMem() []c08Ref {
 			return c08X{gas: c08Ghigh, checkPC: true, pcNext: c.args[0].Uint64()}
 		}},
 		{op: SHA3, name: "sha3", pops: 2, pre: func(a []*big.Int) { c08Window(a, 0, 1) }, f: func(c *c08Ctx) c08X {
-			n := c.args[1].Uint64()
+			n := c08Len(c.args[1])
 			return c08X{gas: 30 + 6*c08Words(n), memOff: c.args[0], memLen: n, pushFromImg: func(img []byte) []*big.Int {
 				var win []byte
 				if n > 0 {
@@ -93,13 +102,13 @@ func c08RefsMem() []c08Ref {
 			}}
 		}},
 		{op: CALLDATACOPY, name: "calldatacopy", pops: 3, pre: func(a []*big.Int) { c08Window(a, 0, 2) }, f: func(c *c08Ctx) c08X {
-			n := c.args[2].Uint64()
+			n := c08Len(c.args[2])
 			return c08X{gas: c08Gverylow + 3*c08Words(n), memOff: c.args[0], memLen: n, write: func(m []byte) {
 				c08CopyPadded(m, c.args[0].Uint64(), c.input, c.args[1], n)
 			}}
 		}},
 		{op: CODECOPY, name: "codecopy", pops: 3, pre: func(a []*big.Int) { c08Window(a, 0, 2) }, f: func(c *c08Ctx) c08X {
-			n := c.args[2].Uint64()
+			n := c08Len(c.args[2])
 			return c08X{gas: c08Gverylow + 3*c08Words(n), memOff: c.args[0], memLen: n, write: func(m []byte) {
 				c08CopyPadded(m, c.args[0].Uint64(), c.code, c.args[1], n)
 			}}
@@ -140,16 +149,16 @@ func c08RefsMem() []c08Ref {
 		}},
 		{op: STOP, name: "stop", pops: 0, f: func(c *c08Ctx) c08X { return c08X{halt: true, retOff: new(big.Int)} }},
 		{op: RETURN, name: "return", pops: 2, pre: func(a []*big.Int) { c08Window(a, 0, 1) }, f: func(c *c08Ctx) c08X {
-			return c08X{halt: true, memOff: c.args[0], memLen: c.args[1].Uint64(), retOff: c.args[0], retLen: c.args[1].Uint64()}
+			return c08X{halt: true, memOff: c.args[0], memLen: c08Len(c.args[1]), retOff: c.args[0], retLen: c08Len(c.args[1])}
 		}},
 		{op: REVERT, name: "revert", pops: 2, pre: func(a []*big.Int) { c08Window(a, 0, 1) }, f: func(c *c08Ctx) c08X {
-			return c08X{revert: true, memOff: c.args[0], memLen: c.args[1].Uint64(), retOff: c.args[0], retLen: c.args[1].Uint64()}
+			return c08X{revert: true, memOff: c.args[0], memLen: c08Len(c.args[1]), retOff: c.args[0], retLen: c08Len(c.args[1])}
 		}},
 	}
 	for n := 0; n <= 4; n++ {
 		n := n
 		r = append(r, c08Ref{op: OpCode(int(LOG0) + n), name: "log", pops: 2 + n, pre: func(a []*big.Int) { c08Window(a, 0, 1) }, f: func(c *c08Ctx) c08X {
-			size := c.args[1].Uint64()
+			size := c08Len(c.args[1])
 			off := c.args[0].Uint64()
 			topics := c.args[2:]
 			blk := c.evm.BlockNumber.Uint64()
